@@ -42,8 +42,9 @@ def _load(prop):
     import pyoma2
 
     src = os.path.realpath(os.path.dirname(pyoma2.__file__))
-    if not src.startswith(os.path.realpath("/repo/src")):
-        _die(f"pyoma2 imported from {src}, not from /repo/src")
+    want = os.path.realpath(os.environ.get("VERIF_REPO_SRC", "/repo/src"))
+    if not src.startswith(want):
+        _die(f"pyoma2 imported from {src}, not from {want}")
     try:
         return importlib.import_module(f"vp.checks.{prop.lower()}")
     except ModuleNotFoundError as e:
